@@ -88,5 +88,11 @@ func scaleCorpus() []Case {
 	add("tree8", tree(8), "greedy", "ns", "sink", "polyline")
 	add("tree8", tree(8), "dfs", "ns", "bk", "straight")
 	add("tree7", tree(7), "greedy", "lp", "valign", "ortho")
+	// a very wide drawing: resources must not grow with the coordinates (fixed defect 6bc1366: the NetworkSimplex
+	// positioner built one layer per unit of x)
+	for _, p4 := range []string{"ns", "sink", "bk", "valign"} {
+		add("wideunits", [][2]int{{0, 1}, {0, 2}, {1, 3}, {2, 3}}, "dfs", "ns", p4, "polyline")
+		cs[len(cs)-1].FixedW, cs[len(cs)-1].FixedH, cs[len(cs)-1].NodeSpacing = 3e8, 1e7, 5e7
+	}
 	return cs
 }
